@@ -70,7 +70,7 @@ def start_param_shapes(kind, R, D):
 
 TERMINALS = ["log_integral", "evaluate_ln", "integrate_x", "integrate_xx", "integrate_lin", "integrate_quad_inner", "integrate_quad_outer",
              "integrate_cubic_inner", "integrate_cubic_outer", "integrate_xAxx", "integrate_xbxx", "integrate_quartic_inner",
-             "integrate_quartic_outer", "log_factor", "entropy_kl"]
+             "integrate_quartic_outer", "log_factor", "entropy_kl", "sample"]
 
 
 def terminal(name, m, P, d):
@@ -112,6 +112,12 @@ def terminal(name, m, P, d):
         p = m.get_density()
         q = pdf.GaussianPDF(Sigma=jnp.tile(jnp.eye(d.shape[1])[None] * 1.3, (1, 1, 1)), mu=d[:1])
         return jnp.concatenate([p.entropy(), p.kl_divergence(q)])
+    if name == "sample":
+        # reparameterised draws mu + L z with a fixed key: a differentiable function of the parameters
+        import jax
+
+        p = m.get_density()
+        return p.sample(jax.random.PRNGKey(7), 3).ravel() + 0.0 * jnp.sum(d)
     raise KeyError(name)
 
 
